@@ -14,13 +14,21 @@ from props.c05 import pattern_matched, quiet_call, is_np, default_of
 from props.c18 import walk
 
 
-class _MaybeMarker:
+class _Marker:
+    """List[...] / Union[...] / Maybe[...] read into plain tuples: `typing` caches its generics by the == of their arguments,
+    and model classes are == when they are structurally equal, so typing.List[Point] may hold ANOTHER Point class"""
+    def __init__(self, tag):
+        self.tag = tag
+
     def __getitem__(self, t):
-        return ("Maybe", t)
+        return (self.tag,) + (t if isinstance(t, tuple) and self.tag == "Union" else (t,))
+
+
+ANY = ("Any",)
 
 
 def read_annotation(text, classes):
-    ns = {"Any": typing.Any, "List": typing.List, "Union": typing.Union, "Maybe": _MaybeMarker(), "None": None}
+    ns = {"Any": ANY, "List": _Marker("List"), "Union": _Marker("Union"), "Maybe": _Marker("Maybe"), "None": None}
     ns.update(classes)
     return eval(text, {"__builtins__": {"str": str, "int": int, "float": float, "bool": bool}}, ns)
 
@@ -30,8 +38,8 @@ def check_type(value, tp, under_maybe=False):
     if isinstance(tp, tuple) and tp and tp[0] == "Maybe":
         return is_np(value) or check_type(value, tp[1])
     if is_np(value):
-        return tp is typing.Any and False          # the not-passed marker only under the optional wrapper
-    if tp is typing.Any:
+        return False                                 # the not-passed marker only under the optional wrapper
+    if tp == ANY:
         return True
     if tp is None or tp is type(None):
         return value is None
@@ -39,14 +47,12 @@ def check_type(value, tp, under_maybe=False):
         return isinstance(value, (int, float))       # an int where a float is announced (PEP 484)
     if tp in (int, str, bool):
         return isinstance(value, tp)
-    origin = typing.get_origin(tp)
-    if tp is typing.List or origin is list:
-        if not isinstance(value, list):
-            return False
-        args = typing.get_args(tp)
-        return True if not args else all(check_type(x, args[0]) for x in value)
-    if origin is typing.Union:
-        return any(check_type(value, a) for a in typing.get_args(tp))
+    if isinstance(tp, _Marker):                      # a bare List
+        return tp.tag == "List" and isinstance(value, list)
+    if isinstance(tp, tuple) and tp[0] == "List":
+        return isinstance(value, list) and all(check_type(x, tp[1]) for x in value)
+    if isinstance(tp, tuple) and tp[0] == "Union":
+        return any(check_type(value, a) for a in tp[1:])
     if isinstance(tp, type):
         return isinstance(value, tp)
     return False
@@ -81,7 +87,24 @@ TEMPLATES = [
             "d": {"e": {"k": "String", "kw": {"default": "x"}}, "required": False, "source": None}}}},
      "order": ["Opt", "Holder"], "root": {"k": "Ref", "name": "Holder"}},
 ]
-TEMPLATE_VALUES = [{"n": 1}, {"n": 3.0}, {"n": 2, "f": 2, "xs": ["a", 1, 2], "u": "s"}, {"n": 1, "xs": ["a", 3.0]}, {"n": 1, "u": 4.0}, {"n": True},
+TEMPLATES += [
+    # a subclass adding a required property, used after its parent
+    {"classes": {"Animal": {"k": "Obj", "name": "Animal", "base": None, "doc": None, "kw": {}, "props": {
+        "name": {"e": {"k": "String", "kw": {}}, "required": True, "source": None}}},
+        "Dog": {"k": "Obj", "name": "Dog", "base": "Animal", "doc": None, "kw": {}, "props": {
+            "legs": {"e": {"k": "Integer", "kw": {}}, "required": True, "source": None}}}},
+     "order": ["Animal", "Dog"], "root": {"k": "Array", "items": {"k": "Ref", "name": "Dog"}, "kw": {}}},
+    # empty tuple items: every member is built by additionalItems
+    {"classes": {"Point": {"k": "Obj", "name": "Point", "base": None, "doc": None, "kw": {}, "props": {
+        "x": {"e": {"k": "Integer", "kw": {}}, "required": False, "source": None}}},
+        "Shape": {"k": "Obj", "name": "Shape", "base": None, "doc": None, "kw": {}, "props": {
+            "pts": {"e": {"k": "Array", "items": [], "kw": {"additionalItems": {"k": "Ref", "name": "Point"}}}, "required": False, "source": None},
+            "ns": {"e": {"k": "Array", "items": [], "kw": {"additionalItems": {"k": "Integer", "kw": {}}}}, "required": False, "source": None},
+            "none": {"e": {"k": "Array", "items": {"k": "Nothing"}, "kw": {}}, "required": False, "source": None}}}},
+     "order": ["Point", "Shape"], "root": {"k": "Ref", "name": "Shape"}},
+]
+TEMPLATE_VALUES = [{"name": "Rex"}, {"name": "Rex", "legs": 4}, [{"name": "Rex"}], {"pts": [{"x": 1}]}, {"ns": ["one", 2]}, {"ns": [1, 2]}, {"none": [1]}, {"none": []},
+                   {"n": 1}, {"n": 3.0}, {"n": 2, "f": 2, "xs": ["a", 1, 2], "u": "s"}, {"n": 1, "xs": ["a", 3.0]}, {"n": 1, "u": 4.0}, {"n": True},
                    {"n": 1, "options": {}}, {"n": 1, "options": {"v": 2}}, {"n": 1, "d": "y", "f": 1.5}]
 
 
@@ -145,9 +168,11 @@ def run(tier, seed, replay=None):
                 except Unmodelled:
                     pass
         # ---- every property of every model class -------------------------------------------------------------
+        # on FRESH classes, parents before children and nothing called yet: a subclass first used after its parent was
+        fresh_root, classes = dslgen.build(doc)
         for name, cls in classes.items():
             stats["classes"] += 1
-            cvals = [gen.gen_value(rng, dslgen.spec_schema(doc, {"k": "Ref", "name": name})) for _ in range(6)] + TEMPLATE_VALUES[:3]
+            cvals = [gen.gen_value(rng, dslgen.spec_schema(doc, {"k": "Ref", "name": name})) for _ in range(6)] + [v for v in TEMPLATE_VALUES if isinstance(v, dict)][:8]
             insts = []
             for v in cvals:
                 tag, r = quiet_call(cls, v)
@@ -208,7 +233,7 @@ def run(tier, seed, replay=None):
     res.coverage["distribution"] = stats
     res.coverage["traces_validated_against_impl"] = len(ann_cases) + len(prop_cases) + len(sound_cases)
     res.coverage["rule"] = ("dslgen trees (+ a template with class default {}, tuple items, unions, numbers): for every reachable element, accepted "
-                            "values vs its annotation read with `typing` (List element types, Union members, NotPassed only under Maybe, int under "
+                            "values vs its annotation read as a type checker reads it (List element types, Union members, NotPassed only under Maybe, int under "
                             "float); for every property of every model class, every instance built from accepted data vs the property annotation, "
                             "and bare annotations vs required/defaulted + presence; annotation texts and the soundness statement are also "
                             "evaluated on Annot.v/Validate.v in Coq.  non-trivial = document with at least one model class")
